@@ -11,8 +11,11 @@ FAULTS = ["bad-start", "short-len", "le-no-cr", "bad-token", "bad-ext", "8d-shor
 @st.composite
 def prefix_case(draw):
     prog = draw(gen_basic.program(max_lines=8))
+    # little-endian files only: 0-3 header-only lines (length byte 3: no body and no terminator, which the tool
+    # accepts and lists as nothing) in front of -- or instead of -- the generated lines
     return {"mode": "prefix", "prog": prog, "listo": draw(st.integers(0, 7)),
-            "cutseed": draw(st.integers(0, 10 ** 6))}
+            "cutseed": draw(st.integers(0, 10 ** 6)),
+            "bare3": draw(st.sampled_from([0, 0, 0, 1, 2, 3])), "only_bare": draw(st.booleans())}
 
 
 APPLICABLE = {
@@ -77,7 +80,9 @@ class C09(CheckBase):
             "empty) -> stdout = concatenation of the per-file outputs, exit = max.  Non-trivial: a cut inside a "
             "line body, a fault after >= 1 good line, or a history containing a truncated file after another file")
     assumptions = ("O(P) is the tool's own output on the intact file (it must exit 0 there)",
-                   "LE lines of length 3 (no CR at all) are not generated: the code accepts them deliberately",)
+                   "LE lines of length 3 (no CR at all) are accepted by the code deliberately; they appear only in "
+                   "front of a program in the truncation mode (a), where the oracle is the tool's own listing of the "
+                   "intact file; if the intact file is rejected the case is skipped")
     min_nontrivial = {"quick": 150, "thorough": 2000}
     budget_s = {"quick": 40, "thorough": 900}
 
@@ -116,6 +121,10 @@ class C09(CheckBase):
         prog = case["prog"]
         dialect = prog["dialect"]
         data = prog_bytes(prog)
+        if case.get("bare3") and rb.CANON[dialect] not in rb.BIG_ENDIAN:
+            bare = b"".join(bytes([3, (10 * k) & 0xFF, 0]) for k in range(1, case["bare3"] + 1))
+            data = bare + (b"\x00\xFF\xFF" if case.get("only_bare") else data)
+            v.classes.append("header-only-lines-first")
         listo = case["listo"]
         args = [tool, "--dialect", dialect, "--listo", str(listo)]
         p = sb.file("full.bbc", data)
